@@ -7,6 +7,7 @@ examples live here.
 import MxlVerif.Lemmas.C16Int
 import MxlVerif.Lemmas.C05Raw
 import MxlVerif.Lemmas.C16Py
+import MxlVerif.Lemmas.C16Bridge
 import MxlVerif.Generated.C16Facts
 namespace Mxl.C16
 open Mxl.C05
@@ -390,6 +391,18 @@ theorem C16_zero_pool (rxs : List LinRxn) (E : Slot → Rat) (v C : Name → Rat
     (linRhsChecked rxs E v C = none ↔ ∃ c ∈ poolsOf rxs, C c = 0) ∧
     (∀ f, linRhsChecked rxs E v C = some f → f = linRhs rxs E v C ∧ ∀ c ∈ poolsOf rxs, C c ≠ 0) :=
   ⟨linRhsChecked_none_iff rxs E v C, fun f h => linRhsChecked_some rxs E v C f h⟩
+
+/-- **what the driver runs is the model the theorems are about**: `label_maps` entries with integer
+    indices inside their reaction's padded positions (`nmaps` = the same entries counted from the
+    front, same order), no raw coefficients ⇒ the driver's entry point `linearBuildP` is
+    `linearBuild` — the model of `C16_model_marginal`, `C16_model_uniform_stationary`,
+    `C16_initial_labels` -/
+theorem C16_model_integer_maps (baseRxns : List (Name × List (Name × Int))) (lv : List (Name × Nat))
+    (maps : List (Name × List Int)) (nmaps : List (Name × List Nat)) (il : List (Name × List Nat))
+    (h : Fa2 (fun km nkm => nkm.1 = km.1 ∧
+      normMap (padLen (isosOf lv) baseRxns km.1) km.2 = .ok nkm.2) maps nmaps) :
+    linearBuildP baseRxns lv maps [] il = linearBuild baseRxns lv nmaps il := by
+  rw [linearBuildP_nil, linearBuildI_eq_nat baseRxns lv maps nmaps il h]
 
 /-- the facts regenerated from the current `linear_label_map.py` by `translate/c16.py` are the ones
     the model is written for: every mirrored function has its modelled statement shape (no decorator,
